@@ -1019,7 +1019,8 @@ impl<B: ScopedBitRead> Reader for UperReader<B> {
 
             if len > 0 {
                 r.scope_stashed(|r| {
-                    let mut vec = Vec::with_capacity(len as usize);
+                    // the length is untrusted: limit the pre-allocation, the vector grows as needed
+                    let mut vec = Vec::with_capacity((len as usize).min(1024));
                     for _ in 0..len {
                         vec.push(T::read_value(r)?);
                     }
@@ -1222,6 +1223,11 @@ impl<B: ScopedBitRead> Reader for UperReader<B> {
                 r.read_length_determinant(C::MIN, C::MAX)?
             };
 
+            if len as usize > r.bits.remaining() {
+                // every character takes at least one bit; do not allocate for a length the
+                // remaining input cannot hold
+                return Err(ErrorKind::EndOfStream.into());
+            }
             let mut buffer = vec![0u8; len as usize];
             for i in 0..len as usize {
                 r.bits.read_bits_with_offset(&mut buffer[i..i + 1], 1)?;
@@ -1252,6 +1258,11 @@ impl<B: ScopedBitRead> Reader for UperReader<B> {
                 r.read_length_determinant(C::MIN, C::MAX)?
             };
 
+            if len as usize > r.bits.remaining() {
+                // every character takes at least one bit; do not allocate for a length the
+                // remaining input cannot hold
+                return Err(ErrorKind::EndOfStream.into());
+            }
             let mut buffer = vec![0u8; len as usize];
             for i in 0..len as usize {
                 r.bits.read_bits_with_offset(&mut buffer[i..i + 1], 4)?;
@@ -1288,6 +1299,11 @@ impl<B: ScopedBitRead> Reader for UperReader<B> {
                 r.read_length_determinant(C::MIN, C::MAX)?
             };
 
+            if len as usize > r.bits.remaining() {
+                // every character takes at least one bit; do not allocate for a length the
+                // remaining input cannot hold
+                return Err(ErrorKind::EndOfStream.into());
+            }
             let mut buffer = vec![0u8; len as usize];
             buffer
                 .chunks_exact_mut(1)
@@ -1318,6 +1334,11 @@ impl<B: ScopedBitRead> Reader for UperReader<B> {
                 r.read_length_determinant(C::MIN, C::MAX)?
             };
 
+            if len as usize > r.bits.remaining() {
+                // every character takes at least one bit; do not allocate for a length the
+                // remaining input cannot hold
+                return Err(ErrorKind::EndOfStream.into());
+            }
             let mut buffer = vec![0u8; len as usize];
             buffer
                 .chunks_exact_mut(1)
